@@ -516,17 +516,26 @@ void gen_c12(Plan& p, bool thorough) {
   km.set("kpat", "rand").set("mlen", (int64_t)r.below(70));
   int total = 8 + 3 * pp.n;
   uint64_t round = p.run / 12;
-  int stride = thorough ? 1 : (pp.kkw ? 16 : 8);
-  int nslices = thorough ? (pp.kkw ? 8 : 2) : 1; // thorough spreads the exhaustive sweep over several runs
-  int slice = (int)(round % nslices);
-  bool sweep = round < (uint64_t)nslices * (thorough ? 1 : 1) || !thorough;
+  // quick: one strided sweep per run (stride 8/16 plus both ends of every field, surface rotating with the bit index).
+  // thorough: rounds 0..23 enumerate every bit through every surface: 8 slices x 3 surfaces; later rounds only sample.
+  const int nslices = 8;
+  bool sweep = !thorough || round < (uint64_t)(3 * nslices);
+  int stride = pp.kkw ? 16 : 8;
   if (sweep)
     for (int b = 0; b < total; b++) {
-      bool edge = b < 8 || (b - 8) % pp.n < 8 || (b - 8) % pp.n >= pp.n - 8;
-      if (thorough ? (b % nslices != slice) : (!edge && (b + (int)round) % stride != 0))
-        continue;
+      int64_t surf;
+      if (thorough) {
+        if (b % nslices != (int)(round % nslices))
+          continue;
+        surf = (int64_t)((round / nslices) % 3);
+      } else {
+        bool edge = b < 8 || (b - 8) % pp.n < 8 || (b - 8) % pp.n >= pp.n - 8;
+        if (!edge && (b + (int)round) % stride != 0)
+          continue;
+        surf = b < 8 ? (int64_t)((b + round) % 2 ? 0 : 2) : (int64_t)((b + round) % 3);
+      }
       Case c = km;
-      c.set("op", "signbad").set("surf", b < 8 ? (int64_t)((b + round) % 2 ? 0 : 2) : (int64_t)((b + round) % 3)).set("node", (b & 1) ? "sse2" : "avx2").set("cf", std::to_string(b));
+      c.set("op", "signbad").set("surf", surf).set("node", (b & 1) ? "sse2" : "avx2").set("cf", std::to_string(b));
       p.tasks[0].push_back(c);
     }
   int nmulti = thorough ? 40 : 12;
@@ -847,7 +856,14 @@ void gen_c18(Plan& p, bool thorough) {
   km.set("kpat", "rand").set("mlen", 40);
   km.set("op", "allocfail").set("target", targets[ti]).set("node", (slice & 1) ? "sse2" : "avx2").setu("bit", r.next() >> 8).setu("rseed", r.next() >> 20);
   int N = pp.kkw ? 4096 : 16;
-  uint64_t nslices = thorough ? 16 : 1;
+  uint64_t nslices = thorough ? 16 : 2;
+  // the invalid signature's single defect rotates through every kind of field (slice 0 of quick: a random byte)
+  static const std::vector<std::string> kkw_fields = {"challenge", "salt", "iSeedInfo", "cvInfo", "seedInfo", "aux", "input", "msgs", "C "};
+  static const std::vector<std::string> zkb_fields = {"challenge", "salt", "commitment", "view", "seed_a", "seed_b", "inputshare3", "G "};
+  if (ti == 2 && (thorough || slice > 0)) {
+    const auto& fl = pp.kkw ? kkw_fields : zkb_fields;
+    km.set("vfield", fl[(slice + p.seed) % fl.size()]);
+  }
   if (slice < nslices) {
     for (int k = 0; k < N; k++) {
       if (thorough ? ((uint64_t)k % nslices != slice) : (pp.kkw && k >= 64 && k % 41 != (int)(p.seed % 41) && k % 41 != 7))
@@ -881,7 +897,7 @@ uint64_t default_runs(const std::string& prop, const std::string& tier) {
     uint64_t q, t;
   };
   static const R tab[] = {{"C01", 480, 4800},  {"C02", 600, 2400 + 384}, {"C03", 288, 2400}, {"C04", 120, 960},  {"C05", 480, 4800}, {"C06", 480, 2880},
-                          {"C07", 144, 288},   {"C09", 480, 2400},       {"C10", 480, 1920},  {"C11", 96, 192},   {"C12", 144, 288 + 288},  {"C13", 721, 3601},
+                          {"C07", 144, 288},   {"C09", 480, 2400},       {"C10", 480, 1920},  {"C11", 96, 192},   {"C12", 144, 12 * 36},  {"C13", 721, 3601},
                           {"C14", 1440, 600 + 4 * 507}, {"C15", 480, 7200},  {"C16", 288, 1920},  {"C17", 13, 37}, {"C18", 180, 60 * 16 + 240}};
   for (auto& r : tab)
     if (prop == r.p)
